@@ -94,6 +94,25 @@ impl Validator {
                     }
                     Some((k, ToplevelDefinition::Object(mut tld))) => {
                         tld = tld.resolve_class_reference(&self.tlds);
+                        if let ClassLink::ByName(class) = &tld.class {
+                            // `val PDU ::= { ... }` reads like an information object of class `PDU`
+                            if self
+                                .tlds
+                                .get(class)
+                                .is_some_and(|c| !matches!(c, ToplevelDefinition::Class(_)))
+                            {
+                                warnings.push(
+                                    LinkerError::new(
+                                        Some(key.clone()),
+                                        &format!(
+                                            "'{class}' is not an information object class. Values of types whose names contain no lower-case letters are only supported when the type is defined in the same module!"
+                                        ),
+                                        LinkerErrorType::Unknown,
+                                    )
+                                    .into(),
+                                );
+                            }
+                        }
                         self.tlds.insert(k, ToplevelDefinition::Object(tld));
                     }
                     _ => (),
